@@ -197,6 +197,9 @@ func (e *Enc) runBody(fn *ssa.Function, con *FuncContract, ur *UnitResult) {
 			e.contractError(nil, "yields", fmt.Errorf("no parameter %q", con.yields))
 		} else {
 			e.setYield(&st, tb.False(), tb.False())
+			e.setYieldCount(&st, tb.Int(0))
+			entry0 := entry.clone()
+			e.yieldEnv = func(s *State) *evalEnv { return e.envForCall(fn, args, nil, s, &entry0) }
 		}
 	}
 	res, out, fr := e.encodeFunc(fn, args, e.freeVarVals, st, nil, con, nil)
@@ -204,8 +207,19 @@ func (e *Enc) runBody(fn *ssa.Function, con *FuncContract, ur *UnitResult) {
 	if con == nil {
 		return
 	}
-	if con.iter != nil {
+	if con.iter != nil && (e.yieldParam == nil || con.iter.param != e.yieldName || con.opts["iterates-checked"] != "true") {
 		e.modelled("ASSUMED iteration summary (`iterates`: number, order and arguments of the callback calls) of " + shortFuncName(fn) + "; only its stop protocol (`yields`) is verified against the body")
+	}
+	if con.iter != nil && e.yieldParam != nil && con.iter.param == e.yieldName && con.opts["iterates-checked"] == "true" {
+		// the unit's own summary: every call was checked where it happens (protocol:…-called-as-summarised); at a return
+		// without a stop all `count` calls have been made
+		env := e.yieldEnv(&out)
+		if cnt, err := env.evalAny(con.iter.count); err == nil && cnt.t != nil && cnt.t.sort == "Int" {
+			q := e.oblige("protocol", e.yieldName+"-called-count-times", &out, tb.Or(e.yieldStopped(&out), tb.Eq(e.yieldCount(&out), cnt.t)), token.NoPos, e.inputVals()...)
+			q.Text = "unless the callback said stop, it has been called exactly `count` times when the function returns (summary `iterates " + con.iter.text + "`)"
+		} else {
+			e.contractError(fr, "iterates", fmt.Errorf("count: %v", err))
+		}
 	}
 	if e.yieldParam != nil {
 		// one obligation that is always generated: on no path was the callback called, or handed to a callee, after it
